@@ -368,11 +368,16 @@ func checkC09(c *Check) {
 	// 6. the end-of-session record of a session still waiting for its login
 	// is in the hold queue: every delivered event of an unbound session is
 	// held (never dropped), in a queue that is the object's own (rules of C02)
-	ne := importRules(c, "C02", checkC02, "end-record-held: ", "exactly-one-of", "hold-iff-unbound", "queue-private", "event-reaches-correlation", "hold-keeps-queue")
+	ne := importRules(c, "C02", checkC02, "end-record-held: ", "exactly-one-of", "hold-iff-unbound", "queue-private", "event-reaches-correlation", "hold-keeps-queue", "hold-keeps-event")
 	c.Floor("imported end-record-held obligations", 10, ne)
 	// 7. the login of the new sshd with a reused PID reaches the correlator:
 	// every accepted login is handed over, whatever PIDs were seen before
 	// (rules of C05)
+	// 8. a session opened by the reused PID starts unbound and is bound only
+	// to the login whose PID it compared (rules of C01): an object recycled
+	// from a pool, still carrying the ended session's login, fails them
+	nb := importRules(c, "C01", checkC01, "new-session-new-identity: ", "bind-is-PID-justified", "who-may-write-identity")
+	c.Floor("imported new-session-new-identity obligations", 3, nb)
 	nl := importRules(c, "C05", checkC05, "login-reaches-correlator: ", "handoff-always-after-write", "handoff-only-cancellation-gives-up", "who-may-send")
 	c.Floor("imported login-reaches-correlator obligations", 8, nl)
 }
